@@ -117,7 +117,7 @@ class ServerConn:
 class AppRun:
     CALLBACKS = ["on_open", "on_reconnect", "on_message", "on_data", "on_error", "on_close", "on_ping", "on_pong", "on_cont_message"]
 
-    def __init__(self, plan, url="ws://app.test/", callbacks=None, raising=None, app_kwargs=None, hooks=None, last_repeats=True):
+    def __init__(self, plan, url="ws://app.test/", callbacks=None, raising=None, app_kwargs=None, hooks=None, last_repeats=True, via_proxy=False):
         self.plan = plan
         self.url = url
         self.enabled = set(self.CALLBACKS[:8] if callbacks is None else callbacks)
@@ -133,6 +133,8 @@ class AppRun:
         self.network.default_ips = ["192.0.2.10"]
         self.network.default_outcome = self._outcome
         self.call_counts = {}
+        self.via_proxy = via_proxy
+        self.connect_requests = []
         self.ret = "not-returned"
         self.exc = None
 
@@ -155,6 +157,25 @@ class AppRun:
             return ("timeout",)
 
         def accept(conn, p=p, i=i):
+            if self.via_proxy:
+                # the dialled address is the proxy: answer CONNECT, then the tunnelled connection follows the plan
+                buf = bytearray()
+
+                def data(c, d, p=p, i=i):
+                    buf.extend(d)
+                    j = buf.find(b"\r\n\r\n")
+                    if j < 0:
+                        return
+                    self.connect_requests.append(bytes(buf[:j]).split(b"\r\n")[0].decode())
+                    rest = bytes(buf[j + 4:])
+                    c.deliver(b"HTTP/1.1 200 Connection established\r\n\r\n")
+                    plan2 = dict(p)
+                    srv = ServerConn(self, c, i, plan2)
+                    self.servers.append(srv)
+                    if rest:
+                        srv.hs._data(c, rest)
+                conn.on_client_data = data
+                return
             plan = dict(p)
             if p["outcome"] == "reject":
                 st = p.get("status", 403)
